@@ -69,13 +69,13 @@ def kkt_exact(A, b, z, eps_w, eps_zw):
     return ok, float(worst_w), float(worst_zw), float(sum(x * x for x in r))
 
 
-def check_case(res, spec, method, allow_neg, exprs, label, consistent):
+def check_case(res, spec, method, allow_neg, exprs, label, consistent, limit=None):
     fr = impl.frame(spec)
     f = impl.forsys_of({0: fr})
     replay = {"spec": {k: spec[k] for k in ("vertices", "edges", "cells")}, "method": method, "allow_negatives": allow_neg,
-              "label": label, "consistent": consistent}
+              "label": label, "consistent": consistent, "limit": limit}
     with impl.quiet():
-        f.build_force_matrix(when=0, angle_limit=np.inf)
+        f.build_force_matrix(when=0, angle_limit=np.inf if limit is None else limit)
     fm = f.force_matrices[0]
     M = np.array(fm.matrix, dtype=float)
     ncol = M.shape[1]
@@ -109,10 +109,28 @@ def check_case(res, spec, method, allow_neg, exprs, label, consistent):
         return
     forces = f.forces[0]
     x = np.array([forces[i] for i in range(len(forces))], dtype=float)
+    pre_bad = []
+    if limit is not None:
+        # with an angle limit the assembled system is the restricted one: the reported value of every interface that has a column is
+        # judged; every other position must hold -1
+        internal = [tuple(e) for e in fr.internal_big_edges_vertices]
+        posn = {e: i for i, e in enumerate(internal)}
+        cols = [tuple(e) for e in fm.big_edges_to_use]
+        if len(x) != len(internal) or any(c not in posn for c in cols):
+            pre_bad.append(f"{len(x)} values reported for {len(internal)} internal interfaces")
+        else:
+            colpos = [posn[c] for c in cols]
+            if any(x[i] != -1 for i in range(len(x)) if i not in set(colpos)):
+                pre_bad.append("an interface without a column in the assembled system is not reported as -1")
+            minus = [i for i in colpos if x[i] == -1]
+            if minus:
+                pre_bad.append(f"interface(s) {minus[:4]} take part in the assembled system but are reported as -1")
+            x = x[colpos]
+        res.count("angle-limited" if len(cols) < len(internal) else "angle limit without exclusion")
     final = [c for c in rec.calls if c["x"] is not None or c.get("inv") is not None]
     path = "+".join(c["solver"] + ("!" if c["error"] else "") for c in rec.calls)
     res.count(f"path={path}")
-    bad = []
+    bad = list(pre_bad)
     if len(x) != ncol:
         bad.append(f"{len(x)} reported tensions for {ncol} unknowns")
     if not np.all(np.isfinite(x)):
@@ -165,7 +183,7 @@ def check_case(res, spec, method, allow_neg, exprs, label, consistent):
                 "warnings": wlist[:1], "mean": float(np.mean(x)), "multiplier": lam})
     # correspondence: augmentation and re-alignment
     used = [c for c in rec.calls if c["A"] is not None and c["solver"] in ("nnls", "lsq_linear", "lmfit", "inv")]
-    if used and len(x) == ncol:
+    if used and len(x) == ncol and limit is None:
         c0 = used[0]
         rows_l = "[" + "; ".join("[" + "; ".join(C.qlit(v) for v in row) + "]" for row in M.tolist()) + "]"
         aug_l = "[" + "; ".join("[" + "; ".join(C.qlit(v) for v in row) + "]" for row in c0["A"].tolist()) + "]"
@@ -212,6 +230,9 @@ def run(res, tier, seed):
             check_case(res, spec, m, bool(rng.integers(0, 2)) if "rosette" not in label else False, exprs, label, consistent)
         if "rosette" in label:
             check_case(res, spec, None, True, exprs, label, consistent)
+        elif "noisy" in label:
+            # the restricted system of an angle limit (several, often neighbouring, interfaces excluded)
+            check_case(res, spec, None, False, exprs, label + "/limited", False, limit=float(rng.uniform(0.72, 0.85)) * math.pi)
     # the broken back-end (known finding)
     spec = gen.voronoi_tissue(rng, n=20, npts=2)
     check_case(res, spec, "fix_stress", True, exprs, "fix_stress", True)
@@ -242,7 +263,7 @@ def replay(res, obj):
     if "case" in inp:
         inp = inp["case"]
     sink = []
-    check_case(res, inp["spec"], inp["method"], inp["allow_negatives"], sink, "replay", inp.get("consistent", False))
+    check_case(res, inp["spec"], inp["method"], inp["allow_negatives"], sink, "replay", inp.get("consistent", False), limit=inp.get("limit"))
     bools, _ = C.coq_eval_bools("C05r", IMPORTS, [e for e, _, _ in sink], chunk=3)
     for (e, rp, kind), b in zip(sink, bools):
         if b is not True:
